@@ -6,6 +6,8 @@ CHECKS = {
         assumptions=["crypto/md5.Sum is an uninterpreted function of its input bytes"],
         harnesses=[
             dict(pkg="protocol", name="C14_rt_lock", bound="all 2^512 64-byte buffers", flags=["-witness", "1"], reach=["end"]),
+            dict(pkg="protocol", name="C14_rt_all", bound="all 2^512 64-byte buffers for each of 18 command/result types", flags=["-witness", "1"], reach=["end", "decode-rejected"]),
+            dict(pkg="protocol", name="C14_rt_call", bound="CALL method names of 0..38 and error types of 0..37 symbolic non-NUL bytes, all header field values", flags=["-witness", "5"], reach=["end"]),
             dict(pkg="protocol", name="C14_chunks_req", bound="BuildRequest of 1..2 arguments of 0..3 symbolic bytes, delivered in up to 3 reads cut at every pair of offsets", flags=["-witness", "100"], reach=["end"]),
             dict(pkg="protocol", name="C14_chunks_resp", bound="BuildResponse in status / error / bulk (0..3 bytes) / array (2 x 0..2 bytes) form, up to 3 reads cut at every pair of offsets", flags=["-witness", "100"], reach=["end"]),
         ],
